@@ -154,7 +154,7 @@ def base_env(home, extra=None, path_prefix=None):
     return env
 
 
-def shim_env(env, log=None, kill_at=None, kill_class=None, fail_at=None, fail_class=None, delay=None, match="copia", argv1=None, alloc_floor=None, gate=None, root=None, tag=None):
+def shim_env(env, log=None, kill_at=None, kill_class=None, kill_sig=None, fail_at=None, fail_class=None, delay=None, match="copia", argv1=None, alloc_floor=None, gate=None, root=None, tag=None):
     e = dict(env)
     if os.environ.get("VERIF_VARIANT") == "asan":
         alloc_floor = None  # the malloc-logging shim and ASan's allocator do not mix
@@ -166,6 +166,8 @@ def shim_env(env, log=None, kill_at=None, kill_class=None, fail_at=None, fail_cl
         e["FSMON_KILL_AT"] = str(kill_at)
     if kill_class:
         e["FSMON_KILL_CLASS"] = kill_class
+    if kill_sig:
+        e["FSMON_KILL_SIG"] = str(kill_sig)
     if fail_at:
         e["FSMON_FAIL_AT"] = fail_at
     if fail_class:
